@@ -139,7 +139,7 @@ theorem set_app3 {α} (a b : List α) (x y z w v : α) (n : Nat) (h : n = a.leng
 well-formed -/
 theorem textWideRow_ok {row : Row} {col cols : Nat} (attrs : Attrs) {c width : Nat}
     (hW32 : W 32 = some 1) (hgood : RowGood W cols row) (hp : Printable W c)
-    (hwidth : width = (W c).getD 1) (hw12 : width = 1 ∨ 2 ≤ width) (hfit : col + width ≤ cols) :
+    (hwidth : decide ((W c).getD 1 > 1) = decide (width > 1)) (hw12 : width = 1 ∨ 2 ≤ width) (hfit : col + width ≤ cols) :
     ∃ row', Grid.textWideRow W row col cols attrs c width = .ok row' ∧ RowGood W cols row' := by
   obtain ⟨cs, wr⟩ := row
   have hinv := rowGood_cells W hgood
@@ -151,7 +151,7 @@ theorem textWideRow_ok {row : Row} {col cols : Nat} (attrs : Attrs) {c width : N
   generalize cs[col] = c0 at hc0
   have hc0ok := hinv.cells_ok c0 (List.mem_of_getElem? hc0)
   -- the new cell and the space that replaces an orphaned second half
-  have hwide_new : decide ((W c).getD 1 > 1) = decide (width > 1) := by rw [← hwidth]
+  have hwide_new : decide ((W c).getD 1 > 1) = decide (width > 1) := hwidth
   by_cases hcont : c0.cont = true
   · -- cursor on the second half of a wide character: its first half is blanked with the pen
     obtain ⟨j, pv, rfl, hpv, hpvw⟩ := paired_cont_prev hc0 hinv.paired hcont
@@ -495,13 +495,22 @@ theorem text_total {g : Grid} (h : GridInv W g true) (hl : g.rows.length = g.siz
   · simp only [hctl, ↓reduceIte, pure_eq_ok]
     exact ⟨g, rfl, stepOk_refl W h hl⟩
   · simp only [hctl, Bool.false_eq_true, ↓reduceIte]
-    by_cases hwide : (W c).getD 1 > g.size.cols
+    generalize hwv : min ((W c).getD 1) 2 = w
+    have hw2 : w ≤ 2 := by rw [← hwv]; exact Nat.min_le_right _ _
+    have hwgt : decide ((W c).getD 1 > 1) = decide (w > 1) := by
+      rw [← hwv]
+      by_cases h1 : (W c).getD 1 > 1
+      · have : min ((W c).getD 1) 2 > 1 := by omega
+        simp [h1, this]
+      · have : ¬ min ((W c).getD 1) 2 > 1 := by omega
+        simp [h1, this]
+    by_cases hwide : w > g.size.cols
     · simp only [hwide, ↓reduceIte, pure_eq_ok]
       exact ⟨g, rfl, stepOk_refl W h hl⟩
     · simp only [hwide, ↓reduceIte]
-      have hw : (W c).getD 1 ≤ g.size.cols := by omega
+      have hw : w ≤ g.size.cols := by omega
       -- the wrap decision never fails
-      have hwrap : ∃ wrap, g.wrapDecision ((W c).getD 1) = .ok wrap := by
+      have hwrap : ∃ wrap, g.wrapDecision w = .ok wrap := by
         simp only [Grid.wrapDecision, subM_ok hw, ok_bind]
         split
         · have hrl : g.pos.row < g.rows.length := by rw [hl]; exact h.pos_row
@@ -514,45 +523,52 @@ theorem text_total {g : Grid} (h : GridInv W g true) (hl : g.rows.length = g.siz
       obtain ⟨wrap, ewrap⟩ := hwrap
       rw [ewrap]
       simp only [ok_bind]
-      obtain ⟨g1, e1, s1, hfit⟩ := colWrap_ok h hl ((W c).getD 1) wrap hw
+      obtain ⟨g1, e1, s1, hfit⟩ := colWrap_ok h hl w wrap hw
       rw [e1]
       simp only [ok_bind]
-      by_cases hzero : ((W c).getD 1 == 0) = true
+      by_cases hzero : (w == 0) = true
       · simp only [hzero, ↓reduceIte]
         have hz : W c = some 0 := by
           simp only [beq_iff_eq] at hzero
+          rw [← hwv] at hzero
           cases hwc : W c with
           | none => simp [hwc] at hzero
-          | some n => simp [hwc] at hzero; rw [hzero]
+          | some n =>
+            simp only [hwc, Option.getD_some] at hzero
+            have : n = 0 := by omega
+            rw [this]
         obtain ⟨g2, e2, s2⟩ := textZero_ok s1.inv s1.len hW32 hz hs s1.inv.pos_col
         exact ⟨g2, e2, stepOk_trans W s1 s2⟩
       · simp only [hzero, Bool.false_eq_true, ↓reduceIte]
-        have hw12 : (W c).getD 1 = 1 ∨ 2 ≤ (W c).getD 1 := by
+        have hw12 : w = 1 ∨ 2 ≤ w := by
           simp only [beq_iff_eq] at hzero
           omega
         have hprint : Printable W c := by
           refine ⟨hs, ?_, ?_⟩
-          · intro h0; simp [h0] at hzero
+          · intro h0
+            simp only [beq_iff_eq] at hzero
+            rw [← hwv, h0] at hzero
+            simp at hzero
           · intro ⟨hn, hlt⟩
             simp [hn, hlt] at hctl
         -- the row-level writes, then the cursor advance
         simp only [Grid.textWide]
         obtain ⟨g2, e2, i2, l2, sz2, p2, c2, _⟩ := modifyCurrentRow_ok W s1.inv s1.len
-          (fun row => Grid.textWideRow W row g1.pos.col g1.size.cols attrs c ((W c).getD 1))
-          (fun r hr => textWideRow_ok attrs hW32 hr hprint rfl hw12 hfit)
+          (fun row => Grid.textWideRow W row g1.pos.col g1.size.cols attrs c w)
+          (fun r hr => textWideRow_ok attrs hW32 hr hprint hwgt hw12 hfit)
         rw [e2]
         simp only [ok_bind, pure_eq_ok]
         have hcu := s1.inv.cols_u16
         refine ⟨_, rfl, ?_⟩
         have hbase : StepOk W g g2 := stepOk_trans W s1 ⟨i2, l2, sz2, c2⟩
         rcases hw12 with h1 | h2
-        · have : ¬ ((W c).getD 1 > 1) := by omega
+        · have : ¬ (w > 1) := by omega
           simp only [this, ↓reduceIte]
           have hle : min (g2.pos.col + 1) 65535 ≤ g2.size.cols :=
             Nat.le_trans (Nat.min_le_left _ _) (by rw [p2, sz2]; omega)
           have hs2 := stepOk_pos W i2 l2 ⟨g2.pos.row, min (g2.pos.col + 1) 65535⟩ i2.pos_row hle
           exact stepOk_trans W hbase (by simpa [Grid.colInc, satAddU16, U16_MAX] using hs2)
-        · have : (W c).getD 1 > 1 := by omega
+        · have : w > 1 := by omega
           simp only [this, ↓reduceIte]
           have hle1 : min (g2.pos.col + 1) 65535 ≤ g2.pos.col + 1 := Nat.min_le_left _ _
           have hle : min (min (g2.pos.col + 1) 65535 + 1) 65535 ≤ g2.size.cols := by
